@@ -284,26 +284,21 @@ Definition gd_arith_ffg (hv : heapview) (o : aop) (a b : N) : vres :=
   | Some x, Some y => ROk (float_arith o x y)
   | _, _ => g_arith hv o a b
   end.
-(* non-numeric operands: Lt..Ge give false, Eq/Ne fall back to the generic equality *)
-Definition gd_cmp_fallback (hv : heapview) (o : cop) (a b : N) : bool :=
-  match o with
-  | CEq => g_eq hv a b
-  | CNe => negb (g_eq hv a b)
-  | _ => false
-  end.
+(* non-numeric operands: the guarded comparisons fall back to the generic comparison
+   (compare_lt.. => TypeError for Lt..Ge; Value == / string contents for Eq, Ne) *)
 Definition gd_cmp_iig (hv : heapview) (o : cop) (a b : N) : vres :=
   match as_int a, as_int b with
   | Some l, Some r => ROk (v_bool (int_cmp o l r))
   | _, _ =>
     match promote a, promote b with
     | Some x, Some y => ROk (v_bool (float_cmp o x y))
-    | _, _ => ROk (v_bool (gd_cmp_fallback hv o a b))
+    | _, _ => g_cmp hv o a b
     end
   end.
 Definition gd_cmp_ffg (hv : heapview) (o : cop) (a b : N) : vres :=
   match promote a, promote b with
   | Some x, Some y => ROk (v_bool (float_cmp o x y))
-  | _, _ => ROk (v_bool (gd_cmp_fallback hv o a b))
+  | _, _ => g_cmp hv o a b
   end.
 
 (* ------------------------------------------------------------------ loop super-instructions *)
